@@ -326,6 +326,8 @@ class IntraWordFilter(Filter):
         elif splitnums:
             numpat = u("(%s|%s)") % (letter2digit, digit2letter)
             self.boundary = re.compile(numpat, re.UNICODE)
+        else:
+            self.boundary = None
 
         self.splitting = splitwords or splitnums
         self.mergewords = mergewords
